@@ -751,7 +751,7 @@ fn constructors(run: &Run) {
         }
     }
     // ---- approximate equality never equates opposite signs ------------------------------------
-    let vals = [0.0, 1.0, -1.0, 1.0 + 2.220446049250313e-16, -(1.0 + 2.220446049250313e-16), 2.0, -2.0, 1e3, -1e3];
+    let vals = [0.0, 1.0, -1.0, 1.0 + 2.220446049250313e-16, -(1.0 + 2.220446049250313e-16), 2.0, -2.0, 1e3, -1e3, -0.0, 1e-17, -1e-17, 1e-200, -1e-200, 5e-324, -5e-324, 1e-7, -1e-7, 1e300, -1e300];
     for &a in &vals {
         for &b in &vals {
             for &tol in &[1e-12, 1e-6, 0.5] {
@@ -761,7 +761,13 @@ fn constructors(run: &Run) {
                 run.nontrivial(1);
                 let (va, vb) = (Vector::new(vec![3.0, a]), Vector::new(vec![3.0, b]));
                 let (ma, mb) = (Matrix::new(vec![a, 3.0], 1, 2), Matrix::new(vec![b, 3.0], 1, 2));
-                let opposite = a * b < 0.0;
+                let opposite = (a < 0.0 && b > 0.0) || (a > 0.0 && b < 0.0);
+                // the documented definition with a factor-2 margin around the threshold: a zero is close to
+                // anything of magnitude within the tolerance; otherwise the difference relative to the
+                // smaller magnitude counts
+                let rel = if a == 0.0 { b.abs() } else if b == 0.0 { a.abs() } else { (a.abs() - b.abs()).abs() / a.abs().min(b.abs()) };
+                let surely_close = !opposite && rel <= 0.5 * tol;
+                let surely_not = opposite || rel > 2.0 * tol;
                 let near = (a - b).abs() <= 4.0 * 2.220446049250313e-16;
                 let far = (a - b).abs() > 0.6 * a.abs().max(b.abs()).max(1.0);
                 for (what, got) in [
@@ -770,11 +776,22 @@ fn constructors(run: &Run) {
                     ("Vector==", va == vb),
                     ("Matrix==", ma == mb),
                 ] {
-                    if opposite && got {
+                    // `==` is an absolute comparison at machine epsilon: two values of opposite sign are equated by
+                    // its definition only if both are within epsilon of zero (−1e-17 == 1e-17)
+                    let eq_by_abs_definition = what.ends_with("==") && (a - b).abs() <= 2.220446049250313e-16;
+                    if what.ends_with("==") && (a - b).abs() > 2.0 * 2.220446049250313e-16 && got {
+                        run.violate(&format!("comparison/{}/equates-distant", what), || format!("{:e} and {:e} compare equal", a, b));
+                    } else if what.ends_with("==") && (a - b).abs() <= 0.5 * 2.220446049250313e-16 && !got {
+                        run.violate(&format!("comparison/{}/rejects-identical", what), || format!("{:e} and {:e} compare unequal", a, b));
+                    } else if opposite && got && !eq_by_abs_definition {
                         run.outcome(&(what, "equates-opposite"));
-                        run.violate(&format!("comparison/{}/equates-opposite-signs", what), || format!("{} and {} compare equal (tol {})", a, b, tol));
+                        run.violate(&format!("comparison/{}/equates-opposite-signs", what), || format!("{:e} and {:e} compare equal (tol {})", a, b, tol));
                     } else if far && got {
                         run.violate(&format!("comparison/{}/equates-distant", what), || format!("{} and {} compare equal (tol {})", a, b, tol));
+                    } else if what.contains("close_to") && surely_close && !got {
+                        run.violate(&format!("comparison/{}/rejects-close-values", what), || format!("{:e} and {:e} are reported not close at tol {} (relative difference {:e})", a, b, tol, rel));
+                    } else if what.contains("close_to") && surely_not && got {
+                        run.violate(&format!("comparison/{}/equates-distant", what), || format!("{:e} and {:e} are reported close at tol {} (relative difference {:e})", a, b, tol, rel));
                     } else if near && !got && (what.ends_with("==") && a == b || what.contains("close_to") && a == b) {
                         run.violate(&format!("comparison/{}/rejects-identical", what), || format!("{} and {} compare unequal", a, b));
                     } else {
@@ -791,7 +808,7 @@ fn constructors(run: &Run) {
 }
 
 pub fn run(run: &Run) {
-    run.rule("programs: BFS over every sequence of structural operations (transpose, reshape with all (r,c) in {-2,-1,0,1,2,3,4,6}^2, concatenation/repetition, row/column extraction incl. out-of-range, in-place sign maps, flat replace, diag, vector/layout conversion) on the real Matrix from 9 labelled start matrices under a 12-element cap, with every accessor and predicate compared against a row-major model in every state; constructors over sizes 1..=64, arange/linspace lattices, rotations at kπ/8, comparison predicates on all pairs of a 9-value alphabet; non-trivial = every distinct reachable state / constructor instance");
+    run.rule("programs: BFS over every sequence of structural operations (transpose, reshape with all (r,c) in {-2,-1,0,1,2,3,4,6}^2, concatenation/repetition, row/column extraction incl. out-of-range, in-place sign maps, flat replace, diag, vector/layout conversion) on the real Matrix from 9 labelled start matrices under a 12-element cap, with every accessor and predicate compared against a row-major model in every state; constructors over sizes 1..=64, arange/linspace lattices, rotations at kπ/8, comparison predicates on all pairs of a 20-value alphabet (zeros of either sign, tiny, subnormal and huge values) against the documented definition; non-trivial = every distinct reachable state / constructor instance");
     programs(run);
     constructors(run);
     for r in ["t", "t_mut", "reshape", "reshape_mut", "hcat", "vcat", "hrepeat", "vrepeat", "get_row_as_vector", "get_col_as_vector", "apply_along_row", "apply_along_col", "flat_idx_replace", "diag", "to_vec/to_matrix", "row_to_col_major", "col_to_row_major", "impossible-rejected"] {
